@@ -59,7 +59,7 @@ def snapshot (d : DState) : String :=
     let es := (d.keys.filter (fun p => p.1 == k)).map (·.2)
     let es := es.mergeSort (fun a b => a ≤ b)
     let items := es.filterMap (fun e =>
-      match d.st.cache k e with
+      match lookup d.st.cache k e with
       | some ent => some s!"{e}({ent.req.length},{ent.duties.length})"
       | none => none)
     s!"k{k}:[" ++ Driver.joinWith " " items ++ "]"
